@@ -88,6 +88,11 @@ def inject(module):
         d["struct"] = shims.struct_shim
     if "socket" in d:
         d["socket"] = shims.socket_shim()
+    from . import fp as _fp
+    if d.get("log10") is __import__("math").log10:
+        d["log10"] = _fp.math_log10
+    if d.get("ceil") is __import__("math").ceil:
+        d["ceil"] = _fp.math_ceil
     if module.__name__ == "xknx.telegram.address":
         # BaseAddress.__hash__ is hash((cls, raw)): hash by class only, so that symbolic and concrete addresses agree
         # (equal objects still hash equal; dicts/sets fall back on __eq__, which forks symbolically on raw equality)
